@@ -132,3 +132,20 @@ Definition amatches (r : bool * string * string) (e : aentry) : bool :=
   Bool.eqb td (a_two_d e) && String.eqb fn (a_fn e) && String.eqb arg (a_arg e).
 Definition array_routing_ok (t : list aentry) : bool :=
   forallb aentry_ok t && forallb (fun r => existsb (amatches r) t) required_arrays.
+
+(* ---- check_finite forwarding: every validation call (_check_array, _check_sized_array,
+   _check_optional_array, _yx_arrays, _yxz_arrays) in the wrappers _register.inner, the constructors,
+   the _setup_* methods and the registered methods passes the fitter's flag on; both branches of each
+   wrapper (object with / without x-values) and the weight validation of each _setup_* family exist. *)
+Definition count_sites (td : bool) (fn : string) (t : list centry) : nat :=
+  List.length (filter (fun e => Bool.eqb td (c_two_d e) && String.eqb fn (c_fn e)) t).
+Definition finite_required : list (bool * string * nat) :=
+  [(false, "_register", 2%nat); (true, "_register", 2%nat);
+   (false, "__init__", 1%nat); (true, "__init__", 2%nat);
+   (false, "_setup_whittaker", 1%nat); (false, "_setup_polynomial", 1%nat); (false, "_setup_spline", 1%nat);
+   (false, "_setup_classification", 1%nat);
+   (true, "_setup_whittaker", 1%nat); (true, "_setup_polynomial", 1%nat); (true, "_setup_spline", 1%nat);
+   (true, "_setup_classification", 1%nat)]%string.
+Definition finite_routing_ok (t : list centry) : bool :=
+  forallb c_forwarded t
+  && forallb (fun r => let '(td, fn, n) := r in Nat.leb n (count_sites td fn t)) finite_required.
